@@ -60,6 +60,12 @@ for order in range(1, 7):
             CONFIGS.append(dict(element="ArbitraryOrderLagrange", order=order, dim=dim, permute=permute, **({"tier": "thorough"} if heavy else {})))
 
 
+# the constructor option `interval` (nodes equidistant on [a, b] per axis instead of [-1, 1])
+for interval in ((0, 1), (-1, 0)):
+    for order, dim, permute in ((1, 1, True), (2, 1, True), (2, 2, True), (2, 2, False), (1, 3, True), (3, 1, False)):
+        CONFIGS.append(dict(element="ArbitraryOrderLagrange", order=order, dim=dim, permute=permute, interval=interval))
+
+
 def _mono(r, e):
     t = 1
     for ri, k in zip(r, e):
@@ -72,7 +78,7 @@ def element(vk, cfg):
     name = cfg["element"]
     if name == "ArbitraryOrderLagrange":
         order, dim = cfg["order"], cfg["dim"]
-        el = fem.element.ArbitraryOrderLagrange(order=order, dim=dim, permute=cfg["permute"])
+        el = fem.element.ArbitraryOrderLagrange(order=order, dim=dim, permute=cfg["permute"], **({"interval": cfg["interval"]} if "interval" in cfg else {}))
         domain, space, nodal, tol = CUBE, ("peraxis", order), None, 1e-10 * max(1, order**dim)
         vk.real(fem.element.ArbitraryOrderLagrange.__init__)
         vk.real(fem.element.ArbitraryOrderLagrange._polynomial)
@@ -83,6 +89,8 @@ def element(vk, cfg):
     vk.real(cls.function)
     vk.real(cls.gradient)
     centre = 0.0 if domain == CUBE else 0.25
+    if "interval" in cfg:
+        centre = sum(cfg["interval"]) / 2
     r = vk.reals("r", (dim,), near=centre, spread=0.2)
 
     h = np.asarray(el.function(r))
